@@ -55,6 +55,16 @@ class Prop(Check):
         "Proc.C13_phase_models",
         "Proc.C13_models_own_metamodel",
         "Proc.C13_finish_single",
+        "Proc.C13_calls_iff",
+        "Proc.C13_calls_nodup",
+        "Proc.C13_called_iff",
+        "Proc.C13_abstract_once_exactly",
+        "Proc.C13_abstract_only",
+        "Proc.C13_no_call_twice",
+        "Proc.C13_child_before_container",
+        "Proc.C13_child_before_container_idx",
+        "Proc.C13_child_before_container_calls",
+        "Proc.C13_replace_keep",
     ]
     DRIVER = "Drivers/Proc.lean"
     QUICK_CASES = 440
